@@ -14,6 +14,7 @@ pub mod progs;
 pub mod refclvm;
 pub mod interp_oracles;
 pub mod costs;
+pub mod incremental;
 
 /// One request line `<KIND> <id> <args…>` ↦ reply body (without the id).
 pub fn run_request(kind: &str, args: &[&str]) -> String {
@@ -29,6 +30,7 @@ pub fn run_request(kind: &str, args: &[&str]) -> String {
         "SER" if args[0] == "br" => backref::run_ser(args),
         "DE" if ["br", "brold", "len"].contains(&args[0]) => backref::run_de(args),
         "PATH" => backref::run_path(args),
+        "INC" => incremental::run(args),
         "SER" if args[0].starts_with("2026:") => serde2026::run_ser(args),
         "DE" if ["2026", "len2026"].contains(&args[0]) => serde2026::run_de(args),
         "INTERN" => serde2026::run_intern(args),
@@ -57,6 +59,7 @@ pub fn gen_stream(name: &str, seed: u64, n: usize, tier: &str) -> Vec<String> {
         "hash" | "thash" | "thash_stream" => treehash::generate(name, &mut rng, n, tier),
         "alloc" | "alloc_limits" | "alloc_small" | "alloc_sub2" | "alloc_ints" => alloc::generate(name, &mut rng, n, tier),
         "classic" => classic::generate(&mut rng, n, tier),
+        "incremental" => incremental::generate(&mut rng, n, tier),
         "serde2026" | "intern" => serde2026::generate(name, &mut rng, n, tier),
         s if s.starts_with("backref_") => backref::generate(s, &mut rng, n, tier),
         "run" => progs::generate_run(&mut rng, n, tier, &["chia"], "any"),
@@ -81,6 +84,7 @@ pub fn run_oracle(name: &str, seed: u64, n: usize, tier: &str) -> util::OracleRe
         "thash_agree" | "hash_vectors" => treehash::oracle(name, &mut rng, n, tier),
         "alloc_accounting" | "alloc_limits" | "alloc_nodes" => alloc::oracle(name, &mut rng, n, tier),
         "classic" => classic::oracle(&mut rng, n, tier),
+        "inc_c19" => incremental::oracle(&mut rng, n, tier),
         "serde2026_roundtrip" | "serde2026_blobs" | "intern" => serde2026::oracle(name, &mut rng, n, tier),
         s if s.starts_with("backref_") => backref::oracle(s, &mut rng, n, tier),
         "costs_vectors" | "unknown_rule" => costs::oracle(name, &mut rng, n, tier),
